@@ -328,6 +328,18 @@ fn kind_of(op: &Op, r: &Ret) -> String {
 
 /// One checked transition on the real code. Returns (successor, mismatch description).
 pub fn step(pre: &Stack<u8>, op: &Op) -> (Stack<u8>, Ret, Option<String>) {
+    {
+        let (v, m, o) = (contents(pre), pre.max_stack_size(), op.clone());
+        mcx::watch::enter(Box::new(move |_| {
+            let name = format!("{o:?}");
+            (format!("stack/{}/hang", name.split('(').next().unwrap_or("op").to_lowercase()), format!("stack {:?} (max {m}) --{}-->", &v[..v.len().min(12)], name.chars().take(60).collect::<String>()), json!({"check":"C04","kind":"hang","contents_len":v.len(),"max":m.to_string(),"op":op_to_json(&o)}))
+        }));
+    }
+    let r = step_inner(pre, op);
+    mcx::watch::leave();
+    r
+}
+fn step_inner(pre: &Stack<u8>, op: &Op) -> (Stack<u8>, Ret, Option<String>) {
     let vals = contents(pre);
     let max = pre.max_stack_size();
     let mut post = pre.clone();
